@@ -35,6 +35,9 @@ def is_logging_stmt(st) -> bool:
         return f.startswith("logging.") or f.startswith("self.fhs_logger.") or f == "print"
     if isinstance(st, ast.Expr) and isinstance(st.value, ast.Constant):
         return True
+    if isinstance(st, ast.If) and not any(isinstance(x, (ast.Call, ast.Await, ast.NamedExpr)) for x in ast.walk(st.test)):
+        # a branch (on a plain flag) whose every arm only logs
+        return all(is_logging_stmt(b) for b in st.body) and all(is_logging_stmt(b) for b in st.orelse)
     return False
 
 
